@@ -386,13 +386,14 @@ func handleLoad(params internal.HandlerFuncParams) ([]byte, error) {
 
 	if strings.ToLower(ext) == ".json" {
 		if err := json.NewDecoder(f).Decode(&users); err != nil {
-			return nil, err
+			// (Not returned as is: an io.EOF from an empty file would be taken for the end of the connection.)
+			return nil, fmt.Errorf("could not read ACL config: %v", err)
 		}
 	}
 
 	if slices.Contains([]string{".yaml", ".yml"}, strings.ToLower(ext)) {
 		if err := yaml.NewDecoder(f).Decode(&users); err != nil {
-			return nil, err
+			return nil, fmt.Errorf("could not read ACL config: %v", err)
 		}
 	}
 
